@@ -1245,6 +1245,17 @@ class Summariser:
             return atom_text(self.ev(n, env))
         if isinstance(n, (ast.ListComp, ast.GeneratorExp)):
             return text(self.comp(n, env))
+        if isinstance(n, (ast.DictComp, ast.SetComp)):
+            inner = dict(env)
+            gens = []
+            for g in n.generators:
+                it = self._c(g.iter, inner)
+                for x in ast.walk(g.target):
+                    if isinstance(x, ast.Name):
+                        inner.pop(x.id, None)
+                gens.append(f"for {norm(g.target)} in {it}" + "".join(f" if {self._c(c, inner)}" for c in g.ifs))
+            head = f"{self._c(n.key, inner)}: {self._c(n.value, inner)}" if isinstance(n, ast.DictComp) else self._c(n.elt, inner)
+            return "{" + head + " " + " ".join(gens) + "}"
         if isinstance(n, ast.Starred):
             return "*" + self._c(n.value, env)
         if isinstance(n, ast.Lambda):
